@@ -40,8 +40,10 @@ def ms(t):
     return int(round(t * MS))
 
 
-async def _idle_case(loop, idle, gaps, partial_at, sock=None, wait=1):
-    """connect, login, then command lines separated by `gaps` (seconds); optionally bytes without newline"""
+async def _idle_case(loop, idle, gaps, partial_at, sock=None, wait=1, transfer=None):
+    """connect, login, then command lines separated by `gaps` (seconds); optionally bytes without newline;
+    `transfer`: the last thing before the silence is a transfer that never ends - "stor-stall" (the peer sends
+    one chunk on the data connection and stops), "retr-nodata" (the data connection is never opened)"""
     kw = {"idle_timeout": idle, "socket_timeout": sock, "wait_future_timeout": wait}
     wd = W.World(loop, S.USERS_ANON, server_kwargs=kw)
     await wd.start()
@@ -71,6 +73,16 @@ async def _idle_case(loop, idle, gaps, partial_at, sock=None, wait=1):
             times.append(loop.time())
             raw.send_raw(line.encode() + b"\r\n")
             await loop.settle()
+        if transfer and not raw.eof:
+            for line in (["EPSV"] + (["STOR n.bin"] if transfer == "stor-stall" else ["RETR f.txt"])):
+                if line != "EPSV" and transfer == "stor-stall":
+                    await W.data_connect(wd, raw)
+                times.append(loop.time())
+                raw.send_raw(line.encode() + b"\r\n")
+                await loop.settle()
+            if transfer == "stor-stall" and raw.data is not None:
+                raw.data[1].write(b"x" * 100)
+                await loop.settle()
         # now stay silent for a long time
         await asyncio.sleep(100)
         await loop.settle()
@@ -282,6 +294,11 @@ def gen(ctx):
             for wait in (None, 1):
                 jobs.append(("idle", idle, [0.5, 0.5], None, sock, wait))
                 jobs.append(("idle", idle, [2.75, 3.25, 0.5], 2, sock, wait))
+    # silence that begins while a transfer is alive and nothing else bounds it: the idle bound still holds
+    for idle in (None, 3):
+        for tr in ("stor-stall", "retr-nodata"):
+            jobs.append(("idle", idle, [0.5], None, None, None, tr))
+            jobs.append(("idle", idle, [], None, None, None, tr))
     for sock in (None, 0, 2):
         for idle in (None, 30):
             jobs.append(("ctrl", sock, idle, 40))
